@@ -677,3 +677,24 @@ MUTATIONS += [
     # leaving a directory pops the stack but keeps looking things up in the sub-directory's parent trees
     dict(id="C11-finish-dir-keeps-subtree", prop="C11", file=PAR13, old="        let tree = self.stack.pop().ok_or(TreeStackEmptyError)?;\n        self.trees = tree;", new="        let _tree = self.stack.pop().ok_or(TreeStackEmptyError)?;"),
 ]
+
+RSN13 = "crates/core/src/commands/repair/snapshots.rs"
+MUTATIONS += [
+    # dry run of repair snapshots still saves the modified snapshots
+    dict(id="C15-repair-snapshots-dry-run-saves", prop="C15", file=RSN13, old="                if dry_run {\n                    info!(\"would have modified snapshot {snap_id}.\");\n                } else {\n                    modified_snapshots.push(snap);\n                }", new="                if dry_run {\n                    info!(\"would have modified snapshot {snap_id}.\");\n                }\n                modified_snapshots.push(snap);"),
+    # dry run of repair snapshots --delete removes the damaged snapshots
+    dict(id="C15-repair-snapshots-dry-run-deletes", prop="C15", file=RSN13, old="    if opts.delete {\n        if dry_run {\n            info!(\"would have removed {} snapshots.\", state.delete.len());\n        } else {", new="    if opts.delete {\n        if dry_run {\n            info!(\"would have removed {} snapshots.\", state.delete.len());\n        }\n        {"),
+    # the tree modifier is created as a writing one even in a dry run
+    dict(id="C15-repair-snapshots-modifier-not-dry", prop="C15", file=RSN13, old="    let modifier = TreeModifier::new(be, repo.index(), config_file, dry_run)?;", new="    let modifier = TreeModifier::new(be, repo.index(), config_file, false)?;"),
+]
+
+HC13 = "crates/core/src/commands/repair/hotcold.rs"
+MUTATIONS += [
+    # dry run of the hot/cold repair copies the files missing in the hot part anyway
+    dict(id="C15-hotcold-dry-run-copies", prop="C15", file=HC13, old="    if !missing_hot.is_empty() {\n        if dry_run {", new="    if !missing_hot.is_empty() {\n        if dry_run && missing_hot.len() > 100 {"),
+]
+
+MUTATIONS += [
+    # rewrite --dry-run --forget still forgets the original snapshots
+    dict(id="C15-rewrite-dry-run-forgets", prop="C15", file="crates/core/src/commands/rewrite.rs", old="    if !snapshots.is_empty() && !opts.dry_run {", new="    if !snapshots.is_empty() && (!opts.dry_run || opts.forget) {"),
+]
